@@ -128,6 +128,69 @@ Definition bind_signal (sigs : list (string * list (loc * string * bool))) (lens
       end
   end.
 
+(* the import statement: alias (or last path segment) -> path, duplicates rejected *)
+Fixpoint imp_all (l : list (string * option string)) (templ : list (string * string)) : res (list (string * string)) :=
+  match l with
+  | [] => OK templ
+  | (p, alias) :: lr =>
+      let name := match alias with Some a => a | None => last_segment p end in
+      if ahas templ name then Err "duplicate-import" else imp_all lr (templ ++ [(name, p)])
+  end.
+
+(* binding the ports of a component instance / of a sub-system instance to global signals *)
+Fixpoint bind_comp (c : comp) (cname : string) (gs : list (string * bool)) (ls : list ref)
+                   (sigs : list (string * list (loc * string * bool))) (lens : list (string * nat))
+  : res (list (string * list (loc * string * bool)) * list (string * nat)) :=
+  match gs, ls with
+  | (g, gwc) :: gr, x :: lr =>
+      let wc := xorb gwc (ref_rev x) in
+      do sl <- bind_signal sigs lens g (LRef (ref_fwd x), cname, wc) (ref_len c x) (Nat.eqb (ref_len c x) 0);
+      bind_comp c cname gr lr (fst sl) (snd sl)
+  | _, _ => OK (sigs, lens)
+  end.
+Fixpoint bind_sys (ilens : list (string * nat)) (cname : string) (gs : list (string * bool)) (ls : list (string * bool))
+                  (sigs : list (string * list (loc * string * bool))) (lens : list (string * nat))
+  : res (list (string * list (loc * string * bool)) * list (string * nat)) :=
+  match gs, ls with
+  | (g, gwc) :: gr, (ln, lwc) :: lr =>
+      let wc := xorb gwc lwc in
+      match afind ilens ln with
+      | Some len =>
+          do sl <- bind_signal sigs lens g (LSig ln, cname, wc) len false;
+          bind_sys ilens cname gr lr (fst sl) (snd sl)
+      | None => Err "internal"
+      end
+  | _, _ => OK (sigs, lens)
+  end.
+
+(* the statements of a system body; [ld] loads a template (the recursive call of load_file) *)
+Fixpoint run_stmts (ld : nat -> string -> list Z -> string -> string -> res (obj * nat)) (prefix new_path : string)
+                   (stmts : list sstmt) (templ : list (string * string))
+                   (comps : list (string * obj)) (sigs : list (string * list (loc * string * bool)))
+                   (lens : list (string * nat)) (ctr : nat)
+  : res (list (string * obj) * list (string * list (loc * string * bool)) * list (string * nat) * nat) :=
+  match stmts with
+  | [] => OK (comps, sigs, lens, ctr)
+  | SImport l :: rest =>
+      do templ' <- imp_all l templ; run_stmts ld prefix new_path rest templ' comps sigs lens ctr
+  | SComponent cname tname cargs cins couts :: rest =>
+      match afind templ tname with
+      | None => Err "template-not-imported"
+      | Some tpath =>
+          if ahas comps cname then Err "duplicate-component" else
+          do r <- ld ctr tpath cargs (prefix +++ cname +++ "-") new_path;
+          let '(o, ctr') := r in
+          let '(ni, no) := obj_ports o in
+          if negb (Nat.eqb (List.length cins) ni && Nat.eqb (List.length couts) no) then Err "port-count" else
+          let globs := cins ++ couts in
+          do sl <- (match o with
+              | OComp c => bind_comp c cname globs (map fst (c_ins c) ++ map fst (c_outs c)) sigs lens
+              | OSys _ _ _ ilens iins iouts => bind_sys ilens cname globs (iins ++ iouts) sigs lens
+              end);
+          run_stmts ld prefix new_path rest templ (comps ++ [(cname, o)]) (fst sl) (snd sl) ctr'
+      end
+  end.
+
 Fixpoint load_file (fuel : nat) (ctr : nat) (basename : string) (args : list Z) (prefix path : string)
   : res (obj * nat) :=
   match fuel with
@@ -155,59 +218,7 @@ Fixpoint load_file (fuel : nat) (ctr : nat) (basename : string) (args : list Z) 
             | Li [ins; outs; stmts] =>
                 match dL d_sig ins, dL d_sig outs, dL (d_sstmt e) stmts with
                 | Some sins, Some souts, Some stmts =>
-                    let fix run (stmts : list sstmt) (templ : list (string * string))
-                                (comps : list (string * obj)) sigs lens (ctr : nat)
-                      : res (list (string * obj) * list (string * list (loc * string * bool)) * list (string * nat) * nat) :=
-                      match stmts with
-                      | [] => OK (comps, sigs, lens, ctr)
-                      | SImport l :: rest =>
-                          let fix imp (l : list (string * option string)) (templ : list (string * string)) : res (list (string * string)) :=
-                            match l with
-                            | [] => OK templ
-                            | (p, alias) :: lr =>
-                                let name := match alias with Some a => a | None => last_segment p end in
-                                if ahas templ name then Err "duplicate-import" else imp lr (templ ++ [(name, p)])
-                            end in
-                          do templ' <- imp l templ; run rest templ' comps sigs lens ctr
-                      | SComponent cname tname cargs cins couts :: rest =>
-                          match afind templ tname with
-                          | None => Err "template-not-imported"
-                          | Some tpath =>
-                              if ahas comps cname then Err "duplicate-component" else
-                              do r <- load_file f ctr tpath cargs (prefix +++ cname +++ "-") new_path;
-                              let '(o, ctr') := r in
-                              let '(ni, no) := obj_ports o in
-                              if negb (Nat.eqb (List.length cins) ni && Nat.eqb (List.length couts) no) then Err "port-count" else
-                              let globs := cins ++ couts in
-                              do sl <- (match o with
-                                  | OComp c =>
-                                      let locs := map fst (c_ins c) ++ map fst (c_outs c) in
-                                      (fix bindall (gs : list (string * bool)) (ls : list ref) sigs lens :=
-                                         match gs, ls with
-                                         | (g, gwc) :: gr, x :: lr =>
-                                             let wc := xorb gwc (ref_rev x) in
-                                             do sl <- bind_signal sigs lens g (LRef (ref_fwd x), cname, wc) (ref_len c x) (Nat.eqb (ref_len c x) 0);
-                                             bindall gr lr (fst sl) (snd sl)
-                                         | _, _ => OK (sigs, lens)
-                                         end) globs locs sigs lens
-                                  | OSys _ _ _ ilens iins iouts =>
-                                      (fix bindall (gs : list (string * bool)) (ls : list (string * bool)) sigs lens :=
-                                         match gs, ls with
-                                         | (g, gwc) :: gr, (ln, lwc) :: lr =>
-                                             let wc := xorb gwc lwc in
-                                             match afind ilens ln with
-                                             | Some len =>
-                                                 do sl <- bind_signal sigs lens g (LSig ln, cname, wc) len false;
-                                                 bindall gr lr (fst sl) (snd sl)
-                                             | None => Err "internal"
-                                             end
-                                         | _, _ => OK (sigs, lens)
-                                         end) globs (iins ++ iouts) sigs lens
-                                  end);
-                              run rest templ (comps ++ [(cname, o)]) (fst sl) (snd sl) ctr'
-                          end
-                      end in
-                    do r <- run stmts [] [] [] [] ctr;
+                    do r <- run_stmts (load_file f) prefix new_path stmts [] [] [] [] ctr;
                     let '(comps, sigs, lens, ctr') := r in
                     if forallb (fun '(n, _) => ahas sigs n) (sins ++ souts)
                     then OK (OSys prefix comps sigs lens sins souts, ctr')
